@@ -160,6 +160,7 @@ func runE2E(casesPath string, nrand int) {
 				}
 			}
 			got := []map[string]interface{}{}
+			timedOut := false
 			dl2 := time.After(asyncWait)
 		wait:
 			for arrived+len(got) < want {
@@ -168,6 +169,7 @@ func runE2E(casesPath string, nrand int) {
 					got = append(got, e2eIdentify(r, byTok, a))
 				case <-dl2:
 					longWaits++
+					timedOut = true
 					break wait
 				}
 			}
@@ -185,6 +187,9 @@ func runE2E(casesPath string, nrand int) {
 			arrived += len(got)
 			tr.Emit(vh.Ev{"ev": "feed", "n": n, "got": got, "buffered": -1})
 			nfeeds++
+			if timedOut {
+				return
+			}
 		}
 		// every request gets its own 200, in order
 		for k := range r.msgs {
